@@ -808,30 +808,62 @@ def check_c18(chk, tier):
         with open(none_toml, "w") as f:
             f.write('path = "unused"\noptimizations = []\nvulnerabilities = []\nqa = []\n')
 
-        def argsof(c, mode):
+        # the default directory ./contracts exists only below "other"
+        bindrive.make_witness_dir(os.path.join(cwds["other"], "contracts"), "D")
+        # configuration files that also name the directory live in a directory of their own
+        cfgdir = os.path.join(root, "cfg")
+        os.makedirs(cfgdir)
+        cat = bindrive.extract_catalogue()
+        names = {"full": cat, "one": {"optimizations": ["sstore"], "vulnerabilities": [], "qa": []},
+                 "none": {"optimizations": [], "vulnerabilities": [], "qa": []}}
+        # (the directory is named by its absolute path: what a relative path in a configuration file is relative to
+        # is not fixed by the property)
+        for mode in names:
+            with open(os.path.join(cfgdir, "%s.toml" % mode), "w") as f:
+                f.write("path = %s\n" % json.dumps(proj))
+                for k in ("optimizations", "vulnerabilities", "qa"):
+                    f.write("%s = [%s]\n" % (k, ", ".join(json.dumps(n) for n in names[mode][k])))
+
+        def argsof(c, mode, via="flag"):
+            if via == "default":
+                return []
+            if via == "toml":
+                # relative spelling from two of the working directories, absolute from the others
+                rel = {"other": os.path.join("..", "cfg"), "parent": "cfg"}.get(c, cfgdir)
+                return ["--toml", os.path.join(rel, "%s.toml" % mode)]
             a = ["--path", pathof[c]]
             if mode == "one":
                 a += ["--toml", one_toml]
             if mode == "none":
                 a += ["--toml", none_toml]
             return a
-        # the clean reports R (all patterns) and R1 (one pattern)
+        # the clean reports: R (all patterns), R1 (one pattern), R0 (none), RD (all patterns on ./contracts)
         clean = {}
         rfile = os.path.join(cwds["other"], "solstat_report.md")
-        for mode in ("full", "one", "none"):
-            code, err = bindrive.run_solstat(sb, cwds["other"], argsof("other", mode))
+        for mode, via in (("full", "flag"), ("one", "flag"), ("none", "flag"), ("full", "toml"), ("one", "toml"), ("none", "toml"), ("full", "default")):
+            code, err = bindrive.run_solstat(sb, cwds["other"], argsof("other", mode, via))
             if code != 0:
-                raise ToolError("clean run (%s) failed: exit %s %s" % (mode, code, err))
+                raise ToolError("clean run (%s, %s) failed: exit %s %s" % (mode, via, code, err))
             if not os.path.exists(rfile):
                 # a successful run from a clean directory must create the report, even an empty one
-                chk.violate("runfs:no-report-created:mode=%s" % mode,
-                            "solstat %s in an empty working directory exits 0 but leaves no solstat_report.md" % " ".join(argsof("other", mode)),
-                            {"args": argsof("other", mode), "cwd": "other", "mode": mode})
-                clean[mode] = b""
+                chk.violate("runfs:no-report-created:mode=%s:via=%s" % (mode, via),
+                            "solstat %s in a working directory without a report exits 0 but leaves no solstat_report.md there" % " ".join(argsof("other", mode, via)),
+                            {"args": argsof("other", mode, via), "cwd": "other", "mode": mode, "via": via})
+                clean[(mode, via)] = clean.get((mode, "flag"), b"")
+                for stray, _dirs, files in os.walk(root):
+                    if "solstat_report.md" in files:
+                        os.remove(os.path.join(stray, "solstat_report.md"))
                 continue
-            clean[mode] = open(rfile, "rb").read()
+            clean[(mode, via)] = open(rfile, "rb").read()
             os.remove(rfile)
-        if clean["full"] == clean["one"] or not clean["one"]:
+        # RunFs!ReportOf: the report does not depend on how directory and patterns were named
+        for mode in ("full", "one", "none"):
+            if clean[(mode, "toml")] != clean[(mode, "flag")]:
+                chk.violate("runfs:report-depends-on-naming:mode=%s" % mode,
+                            "the same directory and patterns named by --toml alone and by --path [--toml] give different reports from a clean state",
+                            {"mode": mode, "args_flag": argsof("other", mode, "flag"), "args_toml": argsof("other", mode, "toml")})
+        clean = {"full": clean[("full", "flag")], "one": clean[("one", "flag")], "none": clean[("none", "flag")], "default": clean[("full", "default")]}
+        if clean["full"] == clean["one"] or not clean["one"] or clean["default"] == clean["full"]:
             raise ToolError("the restricted runs do not produce distinguishable reports")
         stale = {"junk": b"previous junk\n", "R": clean["full"], "long": clean["full"] + b"\n" + clean["full"],
                  "sol": b"pragma solidity ^0.4.0;\ncontract X { function f() public { x++; selfdestruct(msg.sender); } }\n"}
@@ -850,15 +882,15 @@ def check_c18(chk, tier):
                     with open(rp, "wb") as f:
                         f.write(stale[h["init"][c]])
             visited = set()
-            for step_no, (c, mode) in enumerate(h["history"]):
+            for step_no, (c, mode, via) in enumerate(h["history"]):
                 before = bindrive.snapshot(root)
-                code, err = bindrive.run_solstat(sb, cwds[c], argsof(c, mode))
+                code, err = bindrive.run_solstat(sb, cwds[c], argsof(c, mode, via))
                 after = bindrive.snapshot(root)
                 changed = sorted(p for p in set(before) | set(after) if before.get(p) != after.get(p))
                 rp = os.path.relpath(os.path.join(cwds[c], "solstat_report.md"), root)
                 full = os.path.join(root, rp)
-                is_clean = os.path.exists(full) and open(full, "rb").read() == clean[mode]
-                recs.append({"k": "run", "cwd": c, "mode": mode, "step": step_no + 1, "init": h["init"], "history": h["history"],
+                is_clean = os.path.exists(full) and open(full, "rb").read() == clean["default" if via == "default" else mode]
+                recs.append({"k": "run", "cwd": c, "mode": mode, "via": via, "step": step_no + 1, "init": h["init"], "history": h["history"],
                              "stale": h["init"][c] if c not in visited else "previous-run",
                              "obs": {"exit": code, "changed": changed, "report_is_clean": is_clean, "report_path": rp}})
                 visited.add(c)
@@ -871,13 +903,14 @@ def check_c18(chk, tier):
     chk.samples.append(recs[len(recs) // 3])
 
     def describe(rec, why):
-        return ("runfs:%s:cwd=%s:stale=%s" % (why, rec["cwd"], rec["stale"]),
+        return ("runfs:%s:cwd=%s:via=%s:stale=%s" % (why, rec["cwd"], rec["via"], rec["stale"]),
                 "run %d of history %s (initial report files %s): exit=%s changed=%s report_is_clean=%s" % (
                     rec["step"], rec["history"], rec["init"], rec["obs"]["exit"], rec["obs"]["changed"], rec["obs"]["report_is_clean"]))
     trace_validate(chk, "TV_RunFs", tpath, describe, timeout=1800)
     chk.exhaustive = True
     chk.rule = ("TLC enumerates every history of <= 2 (thorough 3) runs over 4 working directories (the analysed directory, its "
-                "parent, a sub-directory of it, an unrelated one) and every initial state of the report files (absent, other "
+                "parent, a sub-directory of it, an unrelated one), 3 pattern selections (all / one / none) and 3 ways of naming the "
+                "target (--path; --toml alone with the file in another directory; no option, ./contracts) and every initial state of the report files (absent, other "
                 "content, Solidity-looking text, a previous report); each history is executed with the real binary on a scratch "
                 "tree; the whole tree is snapshotted (type, size, SHA-256, mode) before and after every run; TV_RunFs accepts a run "
                 "iff only the working directory's solstat_report.md changed and its bytes equal the report produced from a clean "
